@@ -3,55 +3,9 @@ import YaegiVerif.Proofs.C03Main
 namespace YaegiVerif.Proofs.C03
 open YaegiVerif YaegiVerif.Const
 
-theorem unmodelledU_int (b : Bool) : ∀ e, intShape e = true → unmodelledU b e = none := by
-  intro e
-  induction e generalizing b with
-  | un a x ih =>
-    intro hs; simp only [intShape, Bool.and_eq_true] at hs
-    simp [unmodelledU, isBoolAct_unarith a hs.1, ih b hs.2]
-  | bin a x y ihx ihy =>
-    intro hs; simp only [intShape, Bool.and_eq_true] at hs
-    simp [unmodelledU, isBoolAct_arith a hs.1.1, ihx true hs.1.2, ihy true hs.2]
-  | conv t x ih =>
-    intro hs
-    cases t <;> simp [intShape] at hs
-    simp [unmodelledU, ih b hs]
-  | par x ih => intro hs; simp only [intShape] at hs; simp [unmodelledU, ih b hs]
-  | len x _ => intro hs; simp [intShape] at hs
-  | bool _ => intro hs; simp [intShape] at hs
-  | int _ => intro _; rfl
-  | rune _ => intro _; rfl
-  | flt _ => intro hs; simp [intShape] at hs
-  | str _ => intro hs; simp [intShape] at hs
-  | iota => intro _; rfl
+theorem unmodelledU_int (b : Bool) (e : CExpr) : unmodelledU b e = none := rfl
 
-/-- no character literal -/
-def noRune : CExpr → Bool
-  | .rune _ => false
-  | .un _ x => noRune x
-  | .bin _ x y => noRune x && noRune y
-  | .conv _ x => noRune x
-  | .par x => noRune x
-  | .len x => noRune x
-  | _ => true
-
-theorem gtaNodeType_noRune : ∀ e, noRune e = true → (gtaNodeType e).1 = e := by
-  intro e
-  induction e with
-  | rune _ => intro h; simp [noRune] at h
-  | un a x ih => intro h; simp only [noRune] at h; simp [gtaNodeType, ih h]
-  | par x ih => intro h; simp only [noRune] at h; simp [gtaNodeType, ih h]
-  | bin a x y ihx ihy =>
-    intro h; simp only [noRune, Bool.and_eq_true] at h
-    simp only [gtaNodeType]
-    split <;> simp [ihx h.1, ihy h.2]
-  | conv t x _ => intro _; rfl
-  | len x _ => intro _; rfl
-  | int _ => intro _; rfl
-  | flt _ => intro _; rfl
-  | bool _ => intro _; rfl
-  | str _ => intro _; rfl
-  | iota => intro _; rfl
+theorem unmodelled_none (e : CExpr) : unmodelled e = none := rfl
 
 /-- the assignment of an accepted integer constant to the type Go gives it -/
 theorem assign_materialise (n : NS) (g : Spec.GV) (hinv : Inv n g) (t : BT) (v : CV)
@@ -65,7 +19,7 @@ theorem assign_materialise (n : NS) (g : Spec.GV) (hinv : Inv n g) (t : BT) (v :
     by_cases hr : Spec.reprGo k p = true
     · simp only [hr, if_true] at hgo
       injection hgo with hgo; injection hgo with hv _; subst hv
-      have hcv := convertUntypedY_int n ka p k hty hrv hr
+      have hcv := convertUntypedY_int n ka hka p k hty hrv hr
       simp [assignY, hty, Ty.untyped, hcv, materialiseY]
     · simp [hr] at hgo
   · simp only [Spec.assignGo] at hgo
